@@ -9,6 +9,7 @@ import (
 	"bytes"
 	"context"
 	"crypto/rand"
+	"crypto/sha256"
 	"errors"
 	"flag"
 	"fmt"
@@ -956,8 +957,10 @@ func (rn *runner) proposal(v, c *tmconsensus.VersionedRoundView, H uint64, R uin
 	if err != nil {
 		panic(err)
 	}
-	w.sigDesc[string(sig)] = fmt.Sprintf("(SProposal %d %s %d)", proposer, coqBytes(hd.Hash), r)
-	w.sigTr[string(sig)] = fmt.Sprintf("TL [TN 1; TN %d; TB %s; TN %d]", proposer, coqBytes(hd.Hash), r)
+	contentSum := sha256.Sum256(sb)
+	content := contentSum[:]
+	w.sigDesc[string(sig)] = fmt.Sprintf("(SProposal %d %s %d)", proposer, coqBytes(content), r)
+	w.sigTr[string(sig)] = fmt.Sprintf("TL [TN 1; TN %d; TB %s; TN %d]", proposer, coqBytes(content), r)
 	if variant == 2 {
 		sig = w.junkSig()
 	}
@@ -968,7 +971,29 @@ func (rn *runner) proposal(v, c *tmconsensus.VersionedRoundView, H uint64, R uin
 		ph.ProposerPubKey = nil
 		keyCoq = "None"
 	}
-	coq := fmt.Sprintf("(mk_ph %s %d %s %s)", rn.coqHdr(hd, hashOK, curHdr, nextHdr), r, keyCoq, w.desc(sig))
+	coq := fmt.Sprintf("(mk_ph %s %d %s %s %s)", rn.coqHdr(hd, hashOK, curHdr, nextHdr), r, keyCoq, w.desc(sig), coqBytes(content))
+	if variant == 0 && w.r.chance(1, 5) {
+		// a relayed copy with a different next validator set and a correctly recomputed block hash:
+		// the proposer's signature does not cover either, so it still verifies (C15)
+		alt := w.randValset()
+		hd2 := hd
+		hd2.NextValidatorSet = alt.vs
+		hash2, _ := w.hs.Block(hd2)
+		hd2.Hash = hash2
+		ph2 := tmconsensus.ProposedHeader{Header: hd2, Round: r, Signature: sig, ProposerPubKey: ph.ProposerPubKey}
+		coq2 := fmt.Sprintf("(mk_ph %s %d %s %s %s)", rn.coqHdr(hd2, true, curHdr, alt), r, keyCoq, w.desc(sig), coqBytes(content))
+		rn.stats["ph_rehashed_copy"]++
+		if w.r.chance(1, 2) {
+			rn.doPH(ph2, coq2) // forged copy first
+			if len(rn.knownPHs[hr{h, r}]) > 0 {
+				if _, ok := rn.valsAt[h+1]; !ok {
+					rn.valsAt[h+1] = alt
+				}
+			}
+		} else {
+			defer func() { rn.doPH(ph2, coq2) }()
+		}
+	}
 	rn.stats[fmt.Sprintf("ph_variant_%d", variant)]++
 	before := len(rn.knownPHs[hr{h, r}])
 	rn.doPH(ph, coq)
